@@ -47,6 +47,12 @@ CHECKS = {
    note="instance data concrete (small-denominator rational family stated in evidence.bounds); picos' own evaluation trusted for extraction; textbook strong duality and the conic solver trusted; z3 5.1.0",
    text="Per instance and formulation the captured exclusion program equals the textbook program (min-error primal/dual, unambiguous primal/dual) for all decision-variable values; "
         "is_antidistinguishable / common_quantum_overlap proved to be isclose(value,0) / value of the all-ones-prior dual program; trine and PBR constructors equal their closed forms."),
+ "C12": dict(engine="sdpcap", category="translation_validation", design_ref="DESIGN.md §3 C12, §2.2",
+   technique="capture of the picos / cvxpy program built by the real code, exact affine extraction, z3 proof of equality with the textbook program for all decision-variable values, numeric replay; symbolic execution for the caller's-list clause",
+   note="instance data concrete (dyadic family in evidence.bounds); picos / cvxpy evaluation trusted for extraction; textbook duality and conic solvers trusted; z3 5.1.0",
+   text="Per instance: PPT-distinguishability primal and dual programs equal the textbook programs with the oracle's own partial-transpose map (either party, 2x2 and 2x3); "
+        "the symmetric-extension hierarchy program at levels 1 and 2 equals the textbook program (marginal, symmetric-subspace, PT cuts, completeness, objective); "
+        "the caller's list of states holds the same objects after the call."),
 }
 NOT_BUILT = "check not built yet in this round (planned per DESIGN.md §3); nothing is claimed"
 NA = {f"C{i:02d}": NOT_BUILT for i in range(1, 21) if f"C{i:02d}" not in CHECKS}
@@ -57,7 +63,7 @@ ENGINES = [
  {"name": "sdpcap", "path": "sdpcap/", "serves_properties": [k for k, v in CHECKS.items() if v["engine"] == "sdpcap"],
   "kind_free_text": "E2: capture of the cvxpy/picos program the real code builds, exact affine extraction on a basis, z3 obligations T1/T2/T3"},
 ]
-NOTES = ("fix: commits in /repo: cb7d15f, 497f2e2 (C01), 03de9a5, c7b010c (C06), b47dfd5 (C10), 897b7c3 (C11); see known_findings.json 'fixed'. "
+NOTES = ("fix: commits in /repo: cb7d15f, 497f2e2 (C01), 03de9a5, c7b010c (C06), b47dfd5 (C10), 897b7c3 (C11), cb4fb7c (C12); see known_findings.json 'fixed'. "
          "Exit codes: 0 held / 1 VIOLATION (reproduced on the real code) / 2 harness error.")
 
 checks = []
